@@ -27,6 +27,7 @@ type VerifVMStateInfo struct {
 	AsyncRunner  bool
 	StackLen     int
 	NewTargetNil bool
+	NativeDepth  int // nesting of Go recursion without script frames (vm.nativeDepth); 0 when idle
 }
 
 func VerifVMState(r *Runtime) VerifVMStateInfo {
@@ -47,6 +48,7 @@ func VerifVMState(r *Runtime) VerifVMStateInfo {
 		AsyncRunner:  vm.curAsyncRunner != nil,
 		StackLen:     len(vm.stack),
 		NewTargetNil: vm.newTarget == nil,
+		NativeDepth:  vm.nativeDepth,
 	}
 }
 
